@@ -21,13 +21,102 @@ Proof.
   apply in_combine_l in Hin. apply zrange_bounds in Hin. rewrite accumulate_length in Hin. lia.
 Qed.
 
+(* ---- Options(dict): zero weights are dropped *)
+Lemma nzpos_In ws i : In i (nzpos ws) <-> (i < length ws)%nat /\ nonzero (nth i ws 0) = true.
+Proof. unfold nzpos. rewrite filter_In, in_seq. simpl. intuition lia. Qed.
+
+Lemma nzpos_NoDup ws : NoDup (nzpos ws).
+Proof. apply NoDup_filter, seq_NoDup. Qed.
+
+Lemma nonzero_false w : nonzero w = false -> w == 0.
+Proof. unfold nonzero. intros H. apply negb_false_iff in H. apply Qeq_bool_iff in H. exact H. Qed.
+
+Lemma nonzero_true w : nonzero w = true -> ~ w == 0.
+Proof. unfold nonzero. intros H E. apply Qeq_bool_iff in E. rewrite E in H. discriminate. Qed.
+
+Lemma qsum_filter_nz (f : nat -> Q) l :
+  qsum (map f (filter (fun k => nonzero (f k)) l)) == qsum (map f l).
+Proof.
+  unfold qsum. induction l as [|a r IH]; [reflexivity|]. cbn [filter map].
+  destruct (nonzero (f a)) eqn:E; cbn [map wsum].
+  - rewrite IH. reflexivity.
+  - rewrite IH, (nonzero_false _ E). ring.
+Qed.
+
+Lemma map_nth_seq (ws : list Q) : map (fun k => nth k ws 0) (seq 0 (length ws)) = ws.
+Proof.
+  apply (nth_ext _ _ (nth O ws 0) 0).
+  - rewrite map_length, seq_length. reflexivity.
+  - intros n Hn. rewrite map_length, seq_length in Hn.
+    rewrite (map_nth (fun k => nth k ws 0) (seq 0 (length ws)) O n).
+    rewrite seq_nth by exact Hn. reflexivity.
+Qed.
+
+Lemma qsum_nzpos ws : qsum (map (fun k => nth k ws 0) (nzpos ws)) == qsum ws.
+Proof.
+  unfold nzpos. rewrite (qsum_filter_nz (fun k => nth k ws 0)). rewrite map_nth_seq. reflexivity.
+Qed.
+
+(* every result of Options(dict) is an entry of non-zero weight *)
+Lemma leaves_options ws :
+  leaves (fun k => (k < length ws)%nat /\ nonzero (nth k ws 0) = true) (options_tree ws).
+Proof.
+  unfold options_tree. destruct (nzpos ws) as [|p0 ps'] eqn:E; [exact I|]. rewrite <- E.
+  apply (leaves_bind (fun z => (0 <= z < Z.of_nat (length (map (fun k => nth k ws 0%Q) (nzpos ws))))%Z)).
+  - apply leaves_weighted.
+  - intros z Hz. simpl. rewrite map_length in Hz. apply nzpos_In. apply nth_In. lia.
+Qed.
+
+Theorem zero_weight_never_picked ws :
+  leaves (fun k => ~ nth k ws 0 == 0) (options_tree ws).
+Proof.
+  eapply leaves_impl; [|apply leaves_options]. intros k (_ & H). apply nonzero_true. exact H.
+Qed.
+
+(* P(entry i) = w_i / sum of all weights (zero-weight entries: probability 0; all weights zero:
+   rejection, and x / 0 = 0 in Q) *)
+Theorem options_prob ws i : (i < length ws)%nat ->
+  mass (Nat.eqb i) (options_tree ws) == nth i ws 0 / qsum ws.
+Proof.
+  intros Li. unfold options_tree.
+  destruct (nonzero (nth i ws 0)) eqn:Nz.
+  - assert (Hin : In i (nzpos ws)) by (apply nzpos_In; split; assumption).
+    destruct (nzpos ws) as [|p0 ps'] eqn:E; [destruct Hin|]. rewrite <- E in *.
+    set (ps := nzpos ws) in *. set (w := fun k => nth k ws 0).
+    destruct (In_nth ps i O Hin) as (j & Lj & Ej).
+    unfold mass. rewrite expect_bind.
+    transitivity (mass (fun z => Z.eqb z (Z.of_nat j)) (weighted_tree (map w ps))).
+    + unfold mass. apply (expect_ext_leaves _ _ _ _ (leaves_weighted (map w ps))).
+      intros z Hz. rewrite map_length in Hz. simpl.
+      destruct (Z.eqb_spec z (Z.of_nat j)) as [->|N].
+      * rewrite Nat2Z.id, Ej, Nat.eqb_refl. reflexivity.
+      * replace (Nat.eqb i (nth (Z.to_nat z) ps O)) with false; [reflexivity|].
+        symmetry. apply Nat.eqb_neq. intro Ei. apply N.
+        assert (Z.to_nat z = j).
+        { apply (proj1 (NoDup_nth ps O) (nzpos_NoDup ws)); [lia|exact Lj|]. rewrite Ej. symmetry. exact Ei. }
+        lia.
+    + rewrite weighted_prob by (rewrite map_length; exact Lj).
+      assert (Hn : nth j (map w ps) 0 = nth i ws 0).
+      { rewrite (nth_indep _ 0 (w O)) by (rewrite map_length; exact Lj).
+        rewrite (map_nth w ps O j). rewrite Ej. reflexivity. }
+      rewrite Hn. unfold ps, w. rewrite qsum_nzpos. reflexivity.
+  - rewrite (nonzero_false _ Nz).
+    assert (R0 : 0 / qsum ws == 0) by (unfold Qdiv; ring). rewrite R0.
+    destruct (nzpos ws) as [|p0 ps'] eqn:E; [reflexivity|]. rewrite <- E.
+    unfold mass. rewrite expect_bind.
+    rewrite <- (expect_zero (weighted_tree (map (fun k => nth k ws 0) (nzpos ws)))).
+    apply (expect_ext_leaves _ _ _ _ (leaves_weighted _)).
+    intros z Hz. rewrite map_length in Hz. simpl.
+    replace (Nat.eqb i (nth (Z.to_nat z) (nzpos ws) O)) with false; [reflexivity|].
+    symmetry. apply Nat.eqb_neq. intro Ei.
+    assert (Hin : In (nth (Z.to_nat z) (nzpos ws) O) (nzpos ws)) by (apply nth_In; lia).
+    rewrite <- Ei in Hin. apply nzpos_In in Hin. destruct Hin as (_ & H). rewrite H in Nz. discriminate.
+Qed.
+
 Lemma leaves_pick_pos ws : leaves (fun k => (k < length ws)%nat) (pick_pos ws).
 Proof.
   destruct ws as [|w [|w2 r]]; [simpl; exact I|simpl; lia|].
-  unfold pick_pos.
-  apply (leaves_bind (fun z => (0 <= z < Z.of_nat (length (w :: w2 :: r)))%Z)).
-  - apply leaves_weighted.
-  - intros z Hz. simpl. simpl length in Hz. lia.
+  unfold pick_pos. eapply leaves_impl; [|apply leaves_options]. intros k (H & _). exact H.
 Qed.
 
 (* P(the i-th enabled item is picked) = w_i / sum of the enabled weights *)
@@ -35,14 +124,15 @@ Theorem choose_prob ws i : (2 <= length ws)%nat -> (i < length ws)%nat ->
   mass (Nat.eqb i) (pick_pos ws) == nth i ws 0 / qsum ws.
 Proof.
   intros L2 Li. destruct ws as [|w [|w2 r]]; simpl in L2; try lia.
-  rewrite <- (weighted_prob (w :: w2 :: r) i Li).
-  unfold pick_pos, mass. rewrite expect_bind.
-  apply (expect_ext_leaves _ _ _ _ (leaves_weighted (w :: w2 :: r))).
-  intros z Hz. simpl.
-  destruct (Z.eqb_spec z (Z.of_nat i)) as [->|N].
-  - rewrite Nat2Z.id, Nat.eqb_refl. reflexivity.
-  - replace (Nat.eqb i (Z.to_nat z)) with false; [reflexivity|].
-    symmetry. apply Nat.eqb_neq. intro E. apply N. subst. rewrite Z2Nat.id; lia.
+  unfold pick_pos. apply options_prob. exact Li.
+Qed.
+
+(* with >= 2 enabled items an item of weight 0 is never picked *)
+Theorem choose_zero_weight_never ws : (2 <= length ws)%nat ->
+  leaves (fun k => ~ nth k ws 0 == 0) (pick_pos ws).
+Proof.
+  intros L2. destruct ws as [|w [|w2 r]]; simpl in L2; try lia.
+  unfold pick_pos. apply zero_weight_never_picked.
 Qed.
 
 (* exactly one enabled: it is taken and the RNG is not consulted *)
@@ -122,3 +212,44 @@ Proof.
   - rewrite zrange_length. reflexivity.
   - destruct (Z.to_nat (hi - lo + 1)) eqn:E; [lia|]. simpl. discriminate.
 Qed.
+
+(* ---- the executable shuffle (the [shuffle] of [exec], sub-behaviour bodies run in between) *)
+Lemma drop_pos_perm : forall (items : list item) (it : item), In it items ->
+  Permutation (fst it :: map fst (drop_pos (fst it) items)) (map fst items).
+Proof.
+  induction items as [|a r IH]; intros it Hin; [destruct Hin|]. simpl.
+  destruct (Nat.eqb (fst a) (fst it)) eqn:E.
+  - apply Nat.eqb_eq in E. rewrite E. apply Permutation_refl.
+  - destruct Hin as [->|Hin]; [rewrite Nat.eqb_refl in E; discriminate|].
+    simpl. eapply perm_trans; [apply perm_swap|]. apply perm_skip. apply IH. exact Hin.
+Qed.
+
+(* every shuffle that completes before the simulation's time limit has run each listed item
+   exactly once (whatever the sub-behaviours did in between) *)
+Theorem shuffle_exec_permutation P maxSteps : forall fuel n items s,
+  leaves (fun r => (time (fst r) < maxSteps)%nat -> Permutation (snd r) (map fst items))
+         (shuffle P maxSteps fuel n items s).
+Proof.
+  induction fuel as [|f IH]; intros n items s; [exact I|].
+  destruct items as [|it0 r]; [simpl; intros _; apply Permutation_refl|].
+  cbn [shuffle]. set (items := it0 :: r) in *.
+  destruct (Nat.leb maxSteps (time s)) eqn:Et.
+  - simpl. intros Hlt. apply Nat.leb_le in Et. lia.
+  - apply (leaves_bind (fun it => In it items /\ item_enabled P (time s) it = true));
+      [apply choose_exactly_one|].
+    intros it (Hin & _).
+    apply (leaves_bind (fun _ => True)); [apply leaves_true|]. intros s' _.
+    eapply leaves_bind; [apply (IH n (drop_pos (fst it) items) s')|].
+    intros r' Hr. simpl. intros Hlt.
+    eapply perm_trans; [apply perm_skip; apply Hr; exact Hlt|]. apply drop_pos_perm. exact Hin.
+Qed.
+
+(* each stage of the executable shuffle: a pick among the not-yet-run items enabled at the current
+   step, the picked item's body, then the shuffle of the others *)
+Theorem shuffle_exec_stage P maxSteps f n it0 r s : Nat.leb maxSteps (time s) = false ->
+  shuffle P maxSteps (S f) n (it0 :: r) s =
+  bind (pick_item P (time s) (it0 :: r))
+    (fun it => bind (exec P maxSteps f (body (beh P (fst (snd it)))) s)
+       (fun s' => bind (shuffle P maxSteps f n (drop_pos (fst it) (it0 :: r)) s')
+          (fun r' => Ret (fst r', fst it :: snd r')))).
+Proof. intros E. cbn [shuffle]. rewrite E. reflexivity. Qed.
